@@ -14,8 +14,10 @@ sys.path.insert(0, VERIF)
 from pyvc import builtins_model as bm  # noqa: E402
 from pyvc import contract, front, replay  # noqa: E402
 
-EVIDENCE_DIR = os.path.join(VERIF, "evidence")
-REPLAY_DIR = os.path.join(VERIF, "replays")
+# PYVC_EVIDENCE_DIR / PYVC_REPLAY_DIR: runs against scratch or seeded trees must not overwrite the
+# evidence of the unchanged tree
+EVIDENCE_DIR = os.environ.get("PYVC_EVIDENCE_DIR", os.path.join(VERIF, "evidence"))
+REPLAY_DIR = os.environ.get("PYVC_REPLAY_DIR", os.path.join(VERIF, "replays"))
 KNOWN = os.path.join(VERIF, "known_findings.json")
 
 _T = None
